@@ -274,6 +274,16 @@ CLAIMED = {
              "side and LRU maps are not exercised; no model/implementation correspondence term beyond the oracle (the tie is the exchange of map contents).",
         technique="Coq proof of the table laws + both real sides (Python API on a bpf() stand-in, generated program in the ISA model with hash maps) on shared map contents",
         ref="7/C09"),
+    "C29": dict(
+        text="Theorems C29_one_slot_per_variable, C29_no_shared_storage (ANY set of device classes / instances: every device variable has exactly one slot of "
+             "the size attribute lookup uses; slots are pairwise disjoint), C29_write_frame, C29_value_roundtrip (a write changes only its own bytes of the "
+             "shared array; the value is read back unchanged). Tie: the REAL ProcessSyncGroup with real Device / DeviceVar classes (all formats, a derived "
+             "device class redefining a variable): the layout of the shared array must equal the model's; values written in the controlling process are "
+             "read in a SPAWNED child process that received the pickled group, the child writes other variables, the parent reads everything back.",
+        note=TB + "Partial: parent and child access the variables in turns (no concurrent access is exercised); the sync group's run loop in the child "
+             "(subprocess_run) is not started - only the sharing of the device variables is exercised; three fixed device classes.",
+        technique="Coq proof over declaration lists (shared with C08) + the real ProcessSyncGroup across a real spawned process",
+        ref="7/C29"),
 }
 
 REASONS_NOT_YET = "no check built yet in this round (planned, see DESIGN.md section 7); nothing is claimed for it"
